@@ -97,6 +97,8 @@ class Gen(object):
                 items.append(['tabempty'] + [self.mk() for _ in range(6)])            # rows that begin with an empty cell
             elif c < 0.977:
                 items.append(['longtable'] + [self.mk() for _ in range(10)])          # two-row first head, body, last foot
+            elif c < 0.9785:
+                items.append(['hypertarget', self.mk(), self.mk(), self.mk()])        # (hyperref) paragraphs that are only a target / only a link
             elif c < 0.98:
                 items.append(self.widetab(r))                                         # a table wide enough to be folded by the Text renderer
             elif c < 0.982:
@@ -209,6 +211,8 @@ def render_body(items, out):
             out.append('\\begin{quote}%s\\end{quote}\n\\begin{center}%s\\end{center}\n' % (it[1], it[2]))
         elif k == 'tabempty':
             out.append('\\begin{tabular}{lll} & %s & %s \\\\ %s & %s & %s \\\\ & %s & \\end{tabular}\n' % tuple(it[1:7]))
+        elif k == 'hypertarget':
+            out.append('\n\n\\hypertarget{h%s}{%s}\n\n\\hyperlink{h%s}{%s}\n\n%s \\phantomsection after.\n\n' % (it[1], it[1], it[1], it[2], it[3]))
         elif k == 'widetab':
             out.append('\\begin{tabular}{%s}\n%s\\end{tabular}\n' % ('l' * len(it[1][0]), ''.join(
                 ' & '.join(' '.join([cell[0]] + ['x' * cell[2]] * cell[1] + ([cell[3]] if cell[3] else [])) for cell in row) + ' \\\\\n'
@@ -252,7 +256,8 @@ def _uses(doc, kind):
 
 
 def doc_source(doc):
-    out = ['\\documentclass{%s}\n%s\\begin{document}\n' % (doc['cls'], '\\usepackage{longtable}\n' if _uses(doc, 'longtable') else '')]
+    out = ['\\documentclass{%s}\n%s\\begin{document}\n' % (doc['cls'], ('\\usepackage{longtable}\n' if _uses(doc, 'longtable') else '') +
+                                                                ('\\usepackage{hyperref}\n' if _uses(doc, 'hypertarget') else ''))]
     render_body(doc['body'], out)
     render_units(doc['children'], out, doc.get('appendix_before'))
     out.append('\\end{document}\n')
@@ -280,6 +285,8 @@ def body_markers(items):
             b.extend(it[1:4])
         elif k in ('figure', 'description', 'quote'):
             b.extend(it[1:3])
+        elif k == 'hypertarget':
+            b.extend(it[1:4])
         elif k in ('footlist', 'foottext', 'footmarktext', 'footquote'):
             b.append(it[1]); f.append(it[2]); b.append(it[3])
         elif k == 'footsame':
@@ -836,6 +843,8 @@ def enumerate_cases(base_seed, tier):
             for shapes in (['foottext', 'footquote', 'footsame'], ['footmarktext', 'foottext'], ['footquote', 'footsame']):
                 body = [['para', [g.mk()]]] + [[sh, g.mk(), g.mk('fk'), g.mk()] for sh in shapes] + [['footpara', g.mk(), g.mk('fk'), g.mk()]]
                 body += [['tabempty'] + [g.mk() for _ in range(6)], ['longtable'] + [g.mk() for _ in range(10)], g.widetab(rw)]
+                if len(secs) == 1:
+                    body.append(['hypertarget', g.mk(), g.mk(), g.mk()])
                 secs.append({'kind': 'section', 'level': 1, 'star': False, 'label': None, 'title': g.mk('tk'), 'body': body, 'children': []})
             fdoc = {'cls': 'article', 'body': [['footquote', g.mk(), g.mk('fk'), g.mk()]], 'children': secs}
             r = random.Random(core.h64('C13-foot', base_seed, k, split))
